@@ -116,6 +116,11 @@ func GetDocCommentOn(file *ast.File, obj types.Object) (cg *ast.CommentGroup, cl
 	for _, node := range nodes {
 		switch n := node.(type) {
 		case *ast.GenDecl:
+			if n.Doc == nil {
+				// The declaration of obj has no doc comment; the comment of an
+				// enclosing node (the package doc) is not its doc comment.
+				return nil, func() {}
+			}
 			if n.Doc != nil {
 				return n.Doc, func() {
 					if len(n.Doc.List) == 0 {
@@ -124,6 +129,9 @@ func GetDocCommentOn(file *ast.File, obj types.Object) (cg *ast.CommentGroup, cl
 				}
 			}
 		case *ast.FuncDecl:
+			if n.Doc == nil {
+				return nil, func() {}
+			}
 			if n.Doc != nil {
 				return n.Doc, func() {
 					if len(n.Doc.List) == 0 {
@@ -140,6 +148,11 @@ func GetDocCommentOn(file *ast.File, obj types.Object) (cg *ast.CommentGroup, cl
 				}
 			}
 		case *ast.Field:
+			if n.Doc == nil {
+				// A struct field or interface method without doc comment does not
+				// inherit the comment of the type that declares it.
+				return nil, func() {}
+			}
 			if n.Doc != nil {
 				return n.Doc, func() {
 					if len(n.Doc.List) == 0 {
